@@ -72,7 +72,11 @@ def check_panel(case, ctx):
         ctx.label('object:second-flight-condition')
         if not case['mach_route']:
             p.Mach = p.rho_air = p.V = p.speed_sound = None
-    _set_aero(p, case)
+    if pm and case['mach_route']:
+        # only the flight condition is changed (the user never touched beta / gamma / aeromu)
+        p.Mach, p.rho_air, p.V, p.speed_sound = case['Mach'], case['rho'], case['V'], case['ainf']
+    else:
+        _set_aero(p, case)
     restrained = _flow_edges_restrained(case)
     r = case.get('r') if model == 'cpanel' else None
     beta, gamma, aeromu = _coefs(case, r)
